@@ -506,7 +506,7 @@ func replayC05(r *fw.Run, raw json.RawMessage) {
 func init() {
 	fw.Register(&fw.Engine{
 		ID: "C05", Level: "exploration",
-		Rule: "syntax trees of the varlink grammar: a bounded-exhaustive core (every type of nesting depth <= 2 over {5 builtins, alias, ?, [], [string], struct <= 2 fields, enum <= 2 names} at each of 5 positions; every member-kind sequence of length <= 3 containing a method, typeless and typed errors) rendered in 4 fixed layouts (canonical, tightest, CRLF, tabs) and N seeded random layouts (gaps drawn from {none, space, tab, CR, LF, CRLF, comment-to-end-of-line}, doc blocks, detached comments, 8 end-of-file forms), plus seeded random trees (<= 40 members, depth <= 8). A case = (tree, rendering); non-trivial = the tree has >= 2 members or a composite type; distinct by hash of (tree, text). Oracle: idl.New succeeds and the tree equals the generated one (names, member order in all four lists, every type nested as written, Description verbatim, documentation of comment blocks directly above a member).",
+		Rule: "syntax trees of the varlink grammar: a bounded-exhaustive core (every type of nesting depth <= 2 over {5 builtins, alias, ?, [], [string], struct <= 2 fields, enum <= 2 names} at each of 5 positions; every member-kind sequence of length <= 3 containing a method, typeless and typed errors) rendered in 4 fixed layouts (canonical, tightest, CRLF, tabs) and N seeded random layouts (gaps drawn from {none, space, tab, CR, LF, CRLF, comment-to-end-of-line}, doc blocks, detached comments, 8 end-of-file forms), plus seeded random trees (<= 40 members, depth <= 8). A case = (tree, rendering); non-trivial = the tree has >= 2 members or a composite type; distinct by hash of (tree, text). Oracle: idl.New succeeds and the tree equals the generated one (names, member order in all four lists, every type nested as written, Description verbatim, documentation of comment blocks directly above a member). Plus large shapes: 90 members, 48-field structs and enums, lists of 63..300 entries, nesting depth 30, names of 130..200 characters, user types named like builtin types and keywords.",
 		Assumptions: []string{"documentation is asserted only for a block of comment-only lines directly above a member whose keyword and name are on one line", "whitespace between a prefix (?, [], [string]) and its element type is not generated", "error parameter lists start on the line of the error name"},
 		Run:         runC05, Replay: replayC05, CrashIsViolation: true, MinEvals: 1000,
 	})
